@@ -22,10 +22,35 @@ def instances(rng, tier, n_uni, per_uni):
         for _ in range(per_uni):
             try:
                 obj = G.gen_instance(rng, u, "Root")
+                if rng.random() < 0.35:
+                    add_derived(rng, u, obj)
             except Exception:  # noqa: BLE001
                 continue
             yield u, desc, ctx, obj
     yield from score_instances(rng, max(4, n_uni // 6))
+
+
+def add_derived(rng, u, obj):
+    """bindgen never puts a DerivedElement into a wildcard: append one to every wildcard list of the root —
+    a model instance with its xsi:type (what XmlParser builds for <x xsi:type="Leaf0">), a primitive, or
+    (rarely) a model instance without type, which is the region of C04-derived-without-type"""
+    from xsdata.formats.dataclass.context import XmlContext
+    from xsdata.formats.dataclass.models.generics import DerivedElement
+
+    others = [n for n in u.classes if n != "Root"]
+    for f in G.all_fields(u, "Root"):
+        md = f.get("metadata", {})
+        if md.get("type") != "Wildcard" or not (isinstance(f["type"], dict) and "list" in f["type"]):
+            continue
+        r = rng.random()
+        if r < 0.25 or not others:
+            item = DerivedElement(qname=rng.choice(["p", "{urn:d}p"]), value=G.rprim(rng, rng.choice(["str", "int", "bool"])), type=None)
+        else:
+            name = rng.choice(others)
+            inst = G.gen_instance(rng, u, name, 1)
+            tq = XmlContext().build(u.classes[name]).target_qname
+            item = DerivedElement(qname=rng.choice(["d", "{urn:d}d"]), value=inst, type=tq if r < 0.9 else None)
+        getattr(obj, f["name"]).insert(rng.randint(0, len(getattr(obj, f["name"]))), item)
 
 
 # a universe in which the score of bind_best_dataclass decides: two compound choices whose classes
@@ -88,6 +113,34 @@ def impl_enc(a):
         return {"err": "NON-NATIVE:" + str(e)}
 
 
+def _features(a):
+    d = json.dumps(a.get("desc", {}))
+    v = json.dumps(a.get("value", {}))
+    tags = [t for t, pat in (("wrap", '"wrapper"'), ("comp", '"Elements"'), ("wild", '"Wildcard"'), ("attrs", '"Attributes"'),
+                             ("tok", '"tokens": true'), ("sub", '"bases"')) if pat in d]
+    tags += [t for t, pat in (("any", '"any"'), ("derived", '"derived"')) if pat in v]
+    return "+".join(tags) or "plain"
+
+
+def classify_enc(a, o):
+    r = "ok" if "ok" in o else o.get("err", "?")
+    return f"{a['factory']}:{a.get('route', 'dict')}:{'doc-list' if 'list' in a['value'] else 'doc-one'}:{_features(a)}:{r}"
+
+
+def classify_flags(a, o):
+    def shape(v):
+        if v is None:
+            return "none"
+        if "enum" in v:
+            return ("mixin-" if v["enum"]["mixin"] else "enum-") + shape(v["enum"]["value"])
+        if "list" in v:
+            return "list[" + ",".join(sorted({shape(x) for x in v["list"]})) + "]"
+        if "model" in v:
+            return "model"
+        return "prim"
+    return f"wrapper={'y' if a['wrapper'] else 'n'}:wrapped={'y' if a['wrapped'] else 'n'}:{shape(a['value'])[:40]}"
+
+
 def cmp_skip(mo, io, a):
     if unsupported(mo):
         return True
@@ -142,7 +195,11 @@ def cmp_member(mo, io, a):
 def classify_dec(a, o):
     k = a.get("_kind", "?")
     r = "ok" if "ok" in o else o.get("err", "unsupported")
-    return f"{k}:{r}"
+    t = a.get("target")
+    tk = "detect" if t is None else ("list" if "list" in t else "cls")
+    cfg = a.get("config") or {}
+    lenient = "L" if cfg.get("fail_on_unknown_properties") is False else "S"
+    return f"{k}:{tk}:{lenient}:{r}"
 
 
 def gen_rt(rng, tier):
@@ -164,8 +221,10 @@ def impl_rt(a):
 
 def classify_rt(a, o):
     if "ok" in o:
-        return "identity" if o["ok"] == a["value"] else "changed"
-    return o.get("err", "?")
+        r = "identity" if o["ok"] == a["value"] else "changed"
+    else:
+        r = o.get("err", "?")
+    return f"{a['factory']}:{a.get('route', 'dict')}:{_features(a)}:{r}"
 
 
 # ------------------------------------------------------------------ spec level: the richer primitive types
@@ -185,6 +244,37 @@ def spec_e2e(a):
     """the property itself: the encoded form dumps with the stdlib encoder and both routes give the object back;
     instances inside a listed finding are left unspecified"""
     return R.expected(a)
+
+
+def gen_shared(rng, tier):
+    for _ in range(n_cases(tier, 60, 1200)):
+        seeds = [rng.randrange(10**9) for _ in range(rng.randint(2, 3))]
+        steps = [[s, rng.choice(["single", "list"])] for s in seeds]
+        steps += [list(rng.choice(steps)) for _ in range(rng.randint(1, 2))]      # come back to an earlier universe
+        rng.shuffle(steps)
+        yield {"steps": steps, "factories": rng.choice([["dict"], ["filter_none"], ["dict", "filter_none"], ["filter_none", "dict"]])}
+
+
+def impl_shared(a):
+    return {"ok": R.run_shared(a)}
+
+
+def spec_shared(a):
+    """sharing one XmlContext / encoder / decoder between universes with equal class names and between
+    repeated calls changes nothing: every step ends as it does with fresh objects"""
+    return {"ok": R.expected_shared(a)}
+
+
+def oracle_shared_check(a):
+    got, want = R.run_shared(a), R.expected_shared(a)
+    for i, (g, w) in enumerate(zip(got, want)):
+        if g != w:
+            return f"step {i} of {a['steps']} (factories {a['factories']}) through a shared context: {json.dumps(g)[:500]}, with fresh objects: {json.dumps(w)[:200]}"
+    return None
+
+
+def classify_shared(a, o):
+    return f"steps={len(a['steps'])}:factories={'+'.join(a['factories'])}"
 
 
 def classify_e2e(a, o):
@@ -316,7 +406,7 @@ def impl_encflags(a):
 
 
 CORRS = [
-    Corr("dict.enc", gen_enc, impl_enc, compare=cmp_skip,
+    Corr("dict.enc", gen_enc, impl_enc, compare=cmp_skip, classify=classify_enc,
          describe="DictEncoder.encode / JsonSerializer.render (+json.loads) vs model, both factories; the harness rejects non JSON-native outputs"),
     Corr("dict.dec", gen_dec, impl_dec, compare=cmp_member, classify=classify_dec,
          describe="DictDecoder.decode / JsonParser.from_string vs model on real encodings and single-point faults (unknown keys, wrong shapes), "
@@ -326,9 +416,12 @@ CORRS = [
     Corr("dict.valok", gen_valok, impl_valok, compare=cmp_valok, classify=classify_valok,
          describe="the decidable hypothesis of dict_rt (valOKj, valOKu, noSubclassPools) evaluated by the driver on generated universes and "
                   "instances; whenever it holds the real DictEncoder/DictDecoder and JsonSerializer/JsonParser must give the object back"),
-    Corr("dict.encflags", gen_encflags, impl_encflags, compare=cmp_skip,
+    Corr("dict.encflags", gen_encflags, impl_encflags, compare=cmp_skip, classify=classify_flags,
          describe="DictEncoder.encode(value, var, wrapped) on one real XmlVar (with / without wrapper, both flag values) over nested lists, "
                   "Enum members (plain, IntEnum / str mixed-in, over primitives and tuples), primitives, None and model instances vs encFlagsF"),
+    Corr("c04.shared", gen_shared, impl_shared, spec=spec_shared, classify=classify_shared,
+         describe="spec-level: several rich universes with equal class names and repeated documents through ONE XmlContext, encoder, decoder, "
+                  "serializer and parser (both factories interleaved); expected: every step as with fresh objects"),
     Corr("c04.e2e", gen_e2e, impl_e2e, spec=spec_e2e, classify=classify_e2e,
          describe="spec-level: seeded universes over float / Decimal / Union[int,float] / Union[int,str] / Union[float,str] / bytes base16+base64 / "
                   "XmlDate / XmlDateTime / XmlDuration / str and int enums (scalar, Optional, List, nested models, list documents), both factories, "
@@ -512,5 +605,6 @@ FINDINGS = {
 
 ORACLES = [
     Oracle("dict_json_roundtrip", oracle_gen, oracle_check, covered=covered, from_ops=("dict.roundtrip", "dict.enc"), adapt=oracle_adapt),
+    Oracle("shared_context_roundtrip", gen_shared, oracle_shared_check, from_ops=("c04.shared",)),
     Oracle("rich_types_roundtrip", oracle_rich_gen, oracle_rich_check, covered=covered_rich, from_ops=("c04.e2e",)),
 ]
